@@ -8,7 +8,8 @@ From GMS Require Import Store.C20AutoInc.
 Open Scope Z_scope.
 
 Definition obs : Type := (bool * Z * Z * Z * list Z)%type.
-Definition case : Type := list (event * obs).
+(* the column type's maximum, then the history *)
+Definition case : Type := (Z * list (event * obs))%type.
 
 Fixpoint zs_eqb (a b : list Z) : bool :=
   match a, b with
@@ -21,30 +22,28 @@ Fixpoint zinsert (x : Z) (l : list Z) : list Z :=
   match l with [] => [x] | y :: l' => if x <=? y then x :: l else y :: zinsert x l' end.
 Definition zsort (l : list Z) : list Z := fold_right zinsert [] l.
 
-Definition step_ok (s : st) (e : event) (o : obs) : bool * st :=
+Definition step_ok (tmax : Z) (s : st) (e : event) (o : obs) : bool * st :=
   let '(okb, iid, l, c, stored) := o in
-  let '(s', (okm, iidm)) := step s e in
+  let '(s', (okm, iidm)) := step tmax s e in
   (Bool.eqb okb okm && (if okb then iid =? iidm else true) && (l =? lid s') && (c =? ctr s') && zs_eqb stored (zsort (ids s')), s').
 
-(* Not modelled: an INSERT IGNORE that skips a row whose explicit id is a duplicate AND exceeds the counter.  That needs a
-   stored id above the counter, i.e. an earlier ALTER TABLE ... AUTO_INCREMENT below the maximum (C20_counter_exceeds_every_id
-   excludes it otherwise).  The engine then works on two copies of the table data with different counters (the session's,
+(* Not modelled: an INSERT IGNORE that skips a row (duplicate id or duplicate u) whose explicit id exceeds the counter.  The engine then works on two copies of the table data with different counters (the session's,
    raised by GetNextAutoIncrementValue, and the accumulator's, which wins at the end of the statement unless no row was
    committed before).  The comparison of such a history stops at that statement. *)
 Definition risky (s : st) (e : event) : bool :=
   match e with
   | EInsert true specs =>
-      existsb (fun sp => match sp with Some k => (ctr s <? k) && existsb (Z.eqb k) (ids s) | None => false end) specs
+      existsb (fun sp => match fst sp with Some k => (ctr s <? k) && (snd sp || existsb (Z.eqb k) (ids s)) | None => false end) specs
   | _ => false
   end.
 
-Fixpoint run_ok (s : st) (c : case) : bool :=
+Fixpoint run_ok (tmax : Z) (s : st) (c : list (event * obs)) : bool :=
   match c with
   | [] => true
-  | (e, o) :: c' => if risky s e then true else let '(b, s') := step_ok s e o in b && run_ok s' c'
+  | (e, o) :: c' => if risky s e then true else let '(b, s') := step_ok tmax s e o in b && run_ok tmax s' c'
   end.
 
-Definition ok (c : case) : bool := run_ok init c.
+Definition ok (c : case) : bool := run_ok (fst c) init (snd c).
 
 Definition mismatches (cs : list (N * case)) : list N :=
   map fst (filter (fun p => negb (ok (snd p))) cs).
